@@ -3,6 +3,7 @@ import Bifrost.Lemmas.PubsubNet
 import Bifrost.Lemmas.PubsubReach
 import Bifrost.Lemmas.PubsubTerm
 import Bifrost.Lemmas.PubsubReplace
+import Bifrost.Lemmas.PubsubRecvTbl
 /-!
 C28 — Floodsub delivers each message once to every reachable subscriber.
 Network model `Bifrost.Pubsub.Net` (one step = one critical section of floodsub after
@@ -303,5 +304,41 @@ session's queue in front of the initial set. -/
 example : (Replace.run { cap := 32 } [.add, .start, .announce true, .take, .add, .publish 7, .start]).cur =
     some { started := true, queue := [7, 0] } ∧
     (Replace.run { cap := 32 } [.add, .start, .announce true, .take, .add, .publish 7, .start]).panicked = false := by decide
+
+/-! ### Wave 5 — subscription packets of one peer never change what is recorded for another
+(`handleSubscriptions` on the whole `peerChannels` table, model `RecvTbl`) -/
+
+/-- Frame: whatever subscription entries (any channels, any flags, any number, repeated or
+contradictory) arrive over the session of tuple `p`, and whatever the table holds, the record of
+every OTHER tuple `q` under every channel is unchanged: an unsubscribe from a peer that never
+subscribed, a second unsubscribe, an unsubscribe for another channel or a repeated subscribe cannot
+make the router forget (or invent) a subscriber. -/
+theorem recv_other_tuple_untouched (t : RecvTbl.Tbl) (p : Nat) (subs : List (Nat × Bool)) (ch q : Nat)
+    (hq : q ≠ p) : RecvTbl.recorded (RecvTbl.handle t p subs) ch q = RecvTbl.recorded t ch q :=
+  RecvTbl.handle_other t p subs ch q hq
+
+/-- …and for the sending tuple itself the last entry decides: after one entry for a (non-empty)
+channel it is recorded iff the entry said Subscribe, however often it had been announced before. -/
+theorem recv_own_entry_decides (t : RecvTbl.Tbl) (p ch : Nat) (b : Bool) (h0 : ch ≠ 0) :
+    RecvTbl.recorded (RecvTbl.handleOne t p ch b) ch p = b :=
+  RecvTbl.handleOne_self t p ch b h0
+
+/-- Refuted variant: with a "last subscriber" fast path (delete the channel key whenever at most
+one tuple is recorded) the frame property fails — witness: tuple 7 recorded under channel 1, tuple 9
+(never recorded) unsubscribes from channel 1. -/
+theorem recv_fastpath_other_tuple_untouched_false :
+    ¬ ∀ (t : RecvTbl.Tbl) (p ch q : Nat) (b : Bool), q ≠ p →
+      RecvTbl.recorded (RecvTbl.handleOneFast t p ch b) ch q = RecvTbl.recorded t ch q := by
+  intro h
+  have := h (fun c => if c = 1 then some [7] else none) 9 1 7 false (by decide)
+  revert this
+  decide
+
+/-- Non-vacuity: Z(7) and X(9) on channel 1; X subscribes twice then unsubscribes once, then once more:
+Z stays recorded throughout, X is gone after the first unsubscribe, the key survives. -/
+example :
+    let t := RecvTbl.handle (fun _ => none) 7 [(1, true)]
+    let t' := RecvTbl.handle t 9 [(1, true), (1, true), (1, false), (1, false), (2, false), (0, true)]
+    RecvTbl.recorded t' 1 7 = true ∧ RecvTbl.recorded t' 1 9 = false ∧ t' 2 = none ∧ t' 0 = none := by decide
 
 end Bifrost.Props.C28
